@@ -28,7 +28,7 @@ class C01:
         sc_kinds = rng.sample(G.SC_KINDS, rng.randint(2, 4))
         th_pool = rng.sample(G.TH_KINDS, rng.randint(3, 6))
         faults = {k: (rng.random() < p) for k, p in
-                  (('F1', 0.25), ('F6', 0.4), ('F8', 0.25))}
+                  (('F1', 0.25), ('F6', 0.4), ('F8', 0.25), ('F9', 0.25))}
         if rng.random() < 0.33:
             faults = {k: False for k in faults}
         maxside = rng.choice([6, 10, 16])
@@ -203,6 +203,12 @@ class C01:
                 b.emit('arm_solver_fault',
                        {'n': 0, 'mode': rng.choice(['noconv', 'nan'])})
                 armed = True
+            interrupted = False
+            if faults['F9'] and not armed and rng.random() < 0.12:
+                # cancellation inside the n-th forward evaluation of the
+                # next calculation (superpositions / channels have several)
+                b.emit('arm_interrupt', {'n': rng.randint(0, 2)})
+                interrupted = True
             kind = rng.choice(kinds_w)
             if t['far']:
                 # far-field point detectors (r = infinity) are for
@@ -239,10 +245,12 @@ class C01:
             tags = {'k': t['thkind'] + '/' + t['sckind'], 'calc': True}
             if armed:
                 tags['armed'] = True
+            elif interrupted:
+                tags['interrupted'] = True
             else:
                 tags['ref'] = True
             b.emit('calc', args, tags=tags)
-            if armed:
+            if armed or interrupted:
                 b.emit('disarm', {})
         return {'config': {'faults': faults, 'sc_kinds': sc_kinds,
                            'th_pool': th_pool,
@@ -268,6 +276,17 @@ class C01:
                     'interpreter terminated (%s) during calc %s' % (
                         rec.get('status'), tags.get('k')),
                     sig='C01.died:' + str(tags.get('k'))))
+                continue
+            if tags.get('interrupted'):
+                if (rec.get('faults') or {}).get('interrupt') and not (
+                        rec['outcome'] == 'exc' and
+                        rec['exc'] == 'KeyboardInterrupt'):
+                    ex.add(violation(
+                        'C01.cancel', ev['id'],
+                        'a KeyboardInterrupt raised inside a forward '
+                        'evaluation did not propagate (%s %s)' % (
+                            rec['outcome'], rec.get('exc')),
+                        sig='C01.cancel:swallowed'))
                 continue
             valid = G.calc_is_valid(ex, rec)
             fired = bool((rec.get('faults') or {}).get('solver'))
